@@ -114,3 +114,14 @@ pub fn welford_residue_explains(kind: &crate::dynview::Kind, xs: &[f64], t: usiz
     let extra = if matches!(kind, crate::dynview::Kind::Vsct(_)) { 2.0 * e_mean / std } else { 0.0 };
     (got - r).abs() <= 2.0 * r.abs() * rel + extra
 }
+
+/// Quick tier only: half of the trials replace the window length taken from the fixed grid by a
+/// random one in [lo, hi], so that over the trials of one run (and over seeds) every length gets
+/// some coverage, not just the grid's.
+pub fn jitter_n(cfg: &crate::report::Cfg, n: usize, lo: usize, hi: usize, rng: &mut crate::gen::Rng) -> usize {
+    if cfg.tier == crate::report::Tier::Quick && rng.coin() {
+        rng.usize(lo, hi)
+    } else {
+        n
+    }
+}
